@@ -31,10 +31,12 @@ PRELUDE_NEAR = ["Int", "INT", "string", "str", "b64", "float16-64", "float32-16"
 # ---------------------------------------------------------------------------
 
 class Ref:
-    __slots__ = ("pfx", "id", "site", "blank")
+    __slots__ = ("pfx", "id", "site")
 
-    def __init__(self, pfx, id, site, blank=False):
-        self.pfx, self.id, self.site, self.blank = pfx, id, site, blank
+    def __init__(self, pfx, id, site):
+        # the socket prefix is always printed immediately before the identifier: since /repo 837f856 typename / groupname
+        # are compound-atomic (`$ a` is a syntax error, as in RFC 8610)
+        self.pfx, self.id, self.site = pfx, id, site
 
 def N(name, site="hand"):
     if name.startswith("$$"):
@@ -51,10 +53,10 @@ def B(s, site="hand"):
     return out
 
 class Rule:
-    __slots__ = ("name", "op", "params", "body", "blank")
+    __slots__ = ("name", "op", "params", "body")
 
-    def __init__(self, name, op, body, params=(), blank=False):
-        self.name, self.op, self.params, self.body, self.blank = name, op, list(params), body, blank
+    def __init__(self, name, op, body, params=()):
+        self.name, self.op, self.params, self.body = name, op, list(params), body
 
     @property
     def sock(self):
@@ -77,7 +79,7 @@ class Case:
                 out += (seps[k - 1] if seps else "\n").encode()
             self.rule_pos.append(len(out))
             pfx = "$" * r.sock
-            out += (pfx + (" " if r.blank and pfx else "") + r.id).encode()
+            out += (pfx + r.id).encode()
             if r.params:
                 out += ("<" + ", ".join(r.params) + ">").encode()
             out += (" " + r.op + " ").encode()
@@ -85,8 +87,6 @@ class Case:
             for piece in r.body:
                 if isinstance(piece, Ref):
                     out += piece.pfx.encode()
-                    if piece.blank and piece.pfx:
-                        out += b" "
                     pos.append(len(out))
                     sites.append(piece.site)
                     out += piece.id.encode()
@@ -193,10 +193,8 @@ class Gen:
         if k == "param":
             return Ref("", rng.choice(self.params), site)
         if k == "rule":
-            r = N(rng.choice(plain_rules), site)
-            r.blank = rng.random() < 0.1
-            return r
-        return Ref("$$" if amp else "$", rng.choice(SOCKET_IDS), site, blank=rng.random() < 0.1)
+            return N(rng.choice(plain_rules), site)
+        return Ref("$$" if amp else "$", rng.choice(SOCKET_IDS), site)
 
     def generic_args(self, d):
         n = self.rng.choice([1, 1, 2])
@@ -339,7 +337,7 @@ class Gen:
             f, _ = self.type(d, site_v)
             return [occ] + self.key1(d) + [rng.choice([" => ", " ^ => ", " =>", "=> "])] + f
         if k == "gsocket":
-            out = [occ, Ref("$$", rng.choice(SOCKET_IDS), "group_socket", blank=rng.random() < 0.1)]
+            out = [occ, Ref("$$", rng.choice(SOCKET_IDS), "group_socket")]
             if d > 0 and rng.random() < 0.3:
                 out += self.generic_args(d - 1)
             return out
@@ -426,7 +424,7 @@ def random_doc(rng, p_undef=None):
         g.other_params = [p for p in all_params if p not in params and p not in ids_plain and p not in ids_sock and p not in RFC_PRELUDE]
         d = rng.choice([0, 1, 1, 2, 2, 3, 4])
         body = g.type_body(d) if kind == "type" else g.group_body(d, op)
-        rules.append(Rule(name, op, body, params, blank=rng.random() < 0.08))
+        rules.append(Rule(name, op, body, params))
     seps = [rng.choice(SEPS) for _ in range(len(rules) - 1)]
     lead = rng.choice(["", "", "", "\n", "; header zz = int\n", "  "])
     return Case("random", rules, seps, lead)
@@ -638,7 +636,7 @@ def near_misses():
         ("socket-vs-plain-distinct", [R("$a", "=", B("`int`")), R("a", "=", B("`tstr`"))]),
         ("plain-vs-socket-distinct", [R("a", "=", B("`int`")), R("$a", "=", B("`tstr`")), R("$$a", "=", B("(x: `int`)"))]),
         ("socket-dup", [R("$a", "/=", B("`int`")), R("$a", "=", B("`tstr`"))]),
-        ("socket-dup-blank", [R("$a", "=", B("`int`")), R("$a", "=", B("`tstr`"), blank=True)]),
+        ("socket-dup-plain-twice", [R("$a", "=", B("`int`")), R("b", "=", B("`$a`")), R("$a", "=", B("`tstr`"))]),
         ("group-socket-dup", [R("$$g", "//=", B("(x: `int`)")), R("$$g", "=", B("(y: `int`)"))]),
         ("group-socket-vs-plain", [R("$$g", "//=", B("(x: `int`)")), R("g", "=", B("(y: `int`)")), R("$g", "=", B("`int`"))]),
         ("case-differs", [R("a", "=", B("`int`")), R("A", "=", B("`int`")), R("b", "=", B("[`a`, `A`]"))]),
@@ -666,7 +664,7 @@ def near_misses():
         ("reference-to-increment-only", [R("a", "=", B("`b`")), R("b", "/=", B("`int`"))]),
         ("reference-to-group-increment-only", [R("a", "=", B("[`g`]")), R("g", "//=", B("(x: `int`)"))]),
         ("socket-refs-never-checked", [R("a", "=", B("[`$x`, &`$$y`, `$$z`, ~`$x`]"))]),
-        ("socket-ref-blank", [R("a", "=", [Ref("$", "x", "hand", blank=True), " / ", Ref("", "zz", "hand")])]),
+        ("socket-ref-then-undefined", [R("a", "=", B("`$x` / ~`$x` / `zz`"))]),
         ("bareword-key-is-not-a-reference", [R("a", "=", B("{zz: `int`, yy : `tstr`, ? ww: `bool`}"))]),
         ("arrow-key-is-a-reference", [R("a", "=", B("{`zz` => `int`}"))]),
         ("text-and-comment-are-not-references", [R("a", "=", B("\"zz\" / 'yy' ; ww\n / `int`"))]),
